@@ -38,6 +38,22 @@ def kidsCmp (old : List Nat) (exactStates : Bool) : PKids Q → PKids Q → Cmp
   | _, _ => .different
 end
 
+mutual
+/-- all cached states forgotten (for comparing structure and maps only) -/
+def eraseStates : PT Q → PT Q
+  | .node i c ks => .node i ⟨c.aff, .indeterminate⟩ (eraseStatesK ks)
+def eraseStatesK : PKids Q → PKids Q
+  | .nil => .nil
+  | .cons none r => .cons none (eraseStatesK r)
+  | .cons (some t) r => .cons (some (eraseStates t)) (eraseStatesK r)
+end
+
+/-- some coefficient of the tree has magnitude ≥ 2^19: the raw residuals `b − a·x` the code compares with 1e-8 are
+    then computed with a rounding error of the same order, so a containment decision at the threshold is not determined
+    by exact arithmetic -/
+def illScaled (t : PT Q) : Bool :=
+  t.toArena.any (fun nd => nd.val.aff.mat.any (fun r => r.any (fun v => absQ v ≥ (2 : Q) ^ 19)))
+
 def showState : NState Q → String
   | .indeterminate => "I"
   | .infeasible => "X"
